@@ -10,7 +10,23 @@ from __future__ import annotations
 import ast, itertools
 from typing import Dict, List, Optional, Set, Tuple, Callable, Iterable, Any
 from .cfg import CFG
-from .model import norm, names_in
+from .model import norm as _norm, names_in
+import copy as _copy
+
+
+class _Canon(ast.NodeTransformer):
+    """`k in d.keys()` == `k in d`;  strip the call."""
+    def visit_Call(self, node: ast.Call):
+        self.generic_visit(node)
+        if isinstance(node.func, ast.Attribute) and node.func.attr == 'keys' and not node.args and not node.keywords:
+            return node.func.value
+        return node
+
+
+def norm(e: ast.AST) -> str:
+    if any(isinstance(x, ast.Attribute) and x.attr == 'keys' for x in ast.walk(e)):
+        e = _Canon().visit(_copy.deepcopy(e))
+    return _norm(e)
 
 NEG = {ast.NotIn: ast.In, ast.NotEq: ast.Eq, ast.IsNot: ast.Is}
 
